@@ -254,6 +254,25 @@ func Narrow(p *core.Prog, r *core.Report) {
 
 	// json.Number: Int64() exactly when the schema type contains integer, else Float64(); errors reported
 	if f := p.Func("(*SchemaValidator).Validate"); f != nil {
+		// the conversion may live in a helper split off Validate: take the function that holds it
+		hasI64 := func(g *ssa.Function) bool {
+			found := false
+			core.EachInstr(g, func(i ssa.Instruction) {
+				if _, ok := core.IsCallTo(i, "json.Number.Int64"); ok {
+					found = true
+				}
+			})
+			return found
+		}
+		if !hasI64(f) {
+			core.EachInstr(f, func(i ssa.Instruction) {
+				if c, ok := i.(ssa.CallInstruction); ok {
+					if g := core.StaticCallee(c); g != nil && p.InSubject(g) && len(g.Blocks) > 0 && hasI64(g) {
+						f = g
+					}
+				}
+			})
+		}
 		var i64, f64 *ssa.Call
 		core.EachInstr(f, func(i ssa.Instruction) {
 			if c, ok := core.IsCallTo(i, "json.Number.Int64"); ok {
@@ -305,6 +324,31 @@ func Narrow(p *core.Prog, r *core.Report) {
 				core.EachInstr(f, func(i ssa.Instruction) {
 					if ac, ok := core.IsCallTo(i, "(*validate.Result).AddErrors"); ok && errIsNonNilAt(ac.(ssa.Instruction).Block(), errV) {
 						okErr = true
+					}
+					// a helper hands the error back to its caller, which reports it
+					if ret, ok := i.(*ssa.Return); ok && errIsNonNilAt(ret.Block(), errV) {
+						for ri, rv := range ret.Results {
+							if rv != errV {
+								continue
+							}
+							for _, caller := range p.Funcs {
+								core.EachInstr(caller, func(j ssa.Instruction) {
+									hc, ok := j.(*ssa.Call)
+									if !ok || core.StaticCallee(hc) != f {
+										return
+									}
+									for _, ref := range core.Refs(hc) {
+										if e, ok := ref.(*ssa.Extract); ok && e.Index == ri {
+											core.EachInstr(caller, func(k ssa.Instruction) {
+												if ac, ok := core.IsCallTo(k, "(*validate.Result).AddErrors"); ok && errIsNonNilAt(ac.(ssa.Instruction).Block(), e) {
+													okErr = true
+												}
+											})
+										}
+									}
+								})
+							}
+						}
 					}
 				})
 			}
